@@ -206,10 +206,20 @@ func (rn *runner) parseCase(c *apd.Context, s string, tag string) {
 		serr := sc.Scan(s)
 		var sb apd.Decimal
 		sberr := sb.Scan([]byte(s))
-		_, _, berr := apd.NewFromString(s)
+		bd, _, berr := apd.NewFromString(s)
 		agree := "same"
 		if (uerr == nil) != (berr == nil) || (serr == nil) != (berr == nil) || (sberr == nil) != (berr == nil) {
 			agree = "entrypoints-differ"
+		} else if berr == nil {
+			// ... and the same Decimal, field by field (sign of zero, exponent, form): Scan is the inverse of Value
+			if w := showDec(bd); showDec(&u) != w || showDec(&sc) != w || showDec(&sb) != w {
+				agree = "entrypoints-differ"
+			}
+			// a reused destination (a NullDecimal scanned row after row) gives the same Decimal as well
+			rd := junk(rn.r)
+			if rerr := rd.Scan(s); rerr != nil || showDec(rd) != showDec(bd) {
+				agree = "entrypoints-differ"
+			}
 		}
 		bk := "ok"
 		if berr != nil {
